@@ -140,11 +140,12 @@ func TestC09_sweep(t *testing.T) {
 // ================= C20: differential against the fault-free run, phase by phase =================
 
 type C20Case struct {
-	Start  int64        `json:"start"`
-	Cfg    E2Cfg        `json:"cfg"`
-	JCs    []E2JC       `json:"jcs"`
-	Phases [][]E2Op     `json:"phases"`
-	Faults [][]sim.Fault `json:"faults"` // per phase, active only while B settles that phase
+	Start    int64         `json:"start"`
+	Cfg      E2Cfg         `json:"cfg"`
+	JCs      []E2JC        `json:"jcs"`
+	Phases   [][]E2Op      `json:"phases"`
+	Faults   [][]sim.Fault `json:"faults"` // per phase, active only while B settles that phase
+	ListSalt uint64        `json:"listSalt,omitempty"`
 }
 
 // worldAbs is the observable outcome of a world, up to what the API leaves
@@ -277,11 +278,11 @@ var c20Profile = e2Profile{name: "c20", maxJCs: 2, cron: true, lag: false, steps
 // implied at the end of every phase.
 func genC20(t *rapid.T) C20Case {
 	tr := genE2Setup(t, c20Profile)
-	c := C20Case{Start: tr.Start, Cfg: tr.Cfg, JCs: tr.JCs}
+	c := C20Case{Start: tr.Start, Cfg: tr.Cfg, JCs: tr.JCs, ListSalt: tr.ListSalt}
 	nph := rapid.IntRange(2, 7).Draw(t, "nphases")
 	r := newE2Run(tr, false)
 	for ph := 0; ph < nph; ph++ {
-		sub := &E2Trace{Start: tr.Start, Cfg: tr.Cfg, JCs: tr.JCs}
+		sub := &E2Trace{Start: tr.Start, Cfg: tr.Cfg, JCs: tr.JCs, ListSalt: tr.ListSalt}
 		pp := c20Profile
 		pp.steps = rapid.IntRange(1, 6).Draw(t, "phaseops")
 		genOpsOn(t, r, sub, pp, ph*10)
@@ -309,7 +310,7 @@ func genC20(t *rapid.T) C20Case {
 func runC20(c C20Case) pbt.Result {
 	res := pbt.Result{Extra: map[string]int{}}
 	labels := map[string]bool{}
-	base := E2Trace{Start: c.Start, Cfg: c.Cfg, JCs: c.JCs, Profile: "c20"}
+	base := E2Trace{Start: c.Start, Cfg: c.Cfg, JCs: c.JCs, Profile: "c20", ListSalt: c.ListSalt}
 	// A: fault-free
 	var absA []worldAbs
 	ra := newE2Run(&base, false)
